@@ -207,7 +207,7 @@ def build_model_runner():
     if p.returncode != 0:
         return False, p.stdout + p.stderr
     exdir = os.path.join(COQ, "extract")
-    mls = ["conv.ml", "registry.ml"] + sorted(f for f in os.listdir(exdir) if f.startswith("cmds_") and f.endswith(".ml")) + ["modelrun.ml"]
+    mls = ["conv.ml", "registry.ml", "oracle.ml"] + sorted(f for f in os.listdir(exdir) if f.startswith("cmds_") and f.endswith(".ml")) + ["modelrun.ml"]
     new = _hash_file(os.path.join(mldir, "Model.ml"))
     for f in mls:
         shutil.copy(os.path.join(exdir, f), os.path.join(mldir, f))
@@ -215,6 +215,9 @@ def build_model_runner():
     stamp = os.path.join(mldir, ".built")
     if os.path.exists(os.path.join(TOOLS, "modelrun")) and os.path.exists(stamp) and open(stamp).read() == new:
         return True, ""
+    for fn in os.listdir(mldir):
+        if fn.endswith((".cmi", ".cmx", ".o", ".cmo")):
+            os.remove(os.path.join(mldir, fn))
     base = ["ocamlfind", "ocamlopt", "-w", "-a", "-package", "unix", "-linkpkg", "Model.mli", "Model.ml"] + mls + ["-o", os.path.join(TOOLS, "modelrun")]
     p = sh(base[:2] + ["-O2"] + base[2:], cwd=mldir)
     if p.returncode != 0:
